@@ -30,6 +30,7 @@ import (
 	"github.com/apache/skywalking-banyandb/pkg/query/executor"
 	"github.com/apache/skywalking-banyandb/pkg/query/logical"
 	logicalstream "github.com/apache/skywalking-banyandb/pkg/query/logical/stream"
+	vstream "github.com/apache/skywalking-banyandb/pkg/query/vectorized/stream"
 	"github.com/apache/skywalking-banyandb/pkg/run"
 	resourceSchema "github.com/apache/skywalking-banyandb/pkg/schema"
 	"github.com/apache/skywalking-banyandb/pkg/timestamp"
@@ -596,6 +597,94 @@ func sStack() string {
 		}
 	}
 	return strings.Join(keep, "\n")
+}
+
+// queryVec answers q through the columnar path the way banyand/query/processor.go tryStreamVecDispatch
+// does on a standalone node (flag on): VecExecutable -> ExecuteVectorized -> BuildElementsFromBatches ->
+// the plan's tag filter + hidden-tag strip -> the offset:offset+limit slice. eligible=false when the plan
+// shape is not served by the columnar path (the processor then runs the row path).
+func (e *sEnv) queryVec(q sQuery, batchSize int) (out []sOut, eligible bool, err error) {
+	defer func() {
+		if r := recover(); r != nil {
+			err = fmt.Errorf("panic: %v\n%s", r, sStack())
+		}
+	}()
+	cfg := vstream.DefaultConfig()
+	cfg.BatchSize = batchSize
+	e.stm.vectorized = cfg
+	defer func() { e.stm.vectorized = vstream.VectorizedConfig{} }()
+	req := q.request()
+	md := &commonv1.Metadata{Name: sName, Group: sGroup}
+	sch, err := logicalstream.BuildSchema(e.stm.GetSchema(), e.stm.GetIndexRules())
+	if err != nil {
+		return nil, false, err
+	}
+	plan, err := logicalstream.Analyze(req, []*commonv1.Metadata{md}, []logical.Schema{sch}, []executor.StreamExecutionContext{e.stm})
+	if err != nil {
+		return nil, false, fmt.Errorf("analyze: %w", err)
+	}
+	se := plan.(executor.StreamExecutable)
+	defer se.Close()
+	vecExec := logicalstream.VecExecutable(plan)
+	if vecExec == nil {
+		return nil, false, nil
+	}
+	batches, _, err := vecExec.ExecuteVectorized(context.Background())
+	if err != nil {
+		return nil, true, fmt.Errorf("execute vectorized: %w", err)
+	}
+	elems, err := BuildElementsFromBatches(batches, vecExec.ProjectionTags())
+	if err != nil {
+		return nil, true, fmt.Errorf("materialize: %w", err)
+	}
+	if tagFilter, hiddenTags, filterSchema, hasFilter := logicalstream.VecTagFilter(plan); hasFilter {
+		filtered := make([]*streamv1.Element, 0, len(elems))
+		for _, el := range elems {
+			ok, merr := tagFilter.Match(logical.TagFamilies(el.TagFamilies), filterSchema)
+			if merr != nil {
+				return nil, true, merr
+			}
+			if ok {
+				el.TagFamilies = hiddenTags.StripHiddenTags(el.TagFamilies)
+				filtered = append(filtered, el)
+			}
+		}
+		elems = filtered
+	}
+	if offset, limit, ok := logicalstream.VecOffsetLimit(plan); ok {
+		start := int(offset)
+		if start >= len(elems) {
+			elems = nil
+		} else {
+			end := start + int(limit)
+			if end > len(elems) {
+				end = len(elems)
+			}
+			elems = elems[start:end]
+		}
+	}
+	return renderElems(elems), true, nil
+}
+
+func renderElems(elems []*streamv1.Element) (out []sOut) {
+	for _, el := range elems {
+		o := sOut{id: el.GetElementId(), ts: el.GetTimestamp().AsTime().UnixNano()}
+		var parts []string
+		for _, tf := range el.GetTagFamilies() {
+			for _, tg := range tf.GetTags() {
+				parts = append(parts, tg.GetKey()+"="+renderTV(tg.GetValue()))
+				switch tg.GetKey() {
+				case "svc":
+					o.svc = tg.GetValue().GetStr().GetValue()
+				case "code":
+					o.code = tg.GetValue().GetInt().GetValue()
+				}
+			}
+		}
+		o.tags = strings.Join(parts, " ")
+		out = append(out, o)
+	}
+	return out
 }
 
 // storedID is the element id as the query returns it (hex of the hashed id).
